@@ -134,6 +134,11 @@ pub fn run<E: std::fmt::Display>(f: impl FnOnce() -> Result<Value, E>) -> Value 
     }
 }
 
+/// message of the panic caught last (for callers that use catch_unwind themselves)
+pub fn take_panic() -> String {
+    LAST_PANIC.with(|p| p.borrow_mut().take()).unwrap_or_default()
+}
+
 pub fn is_ok(v: &Value) -> bool {
     v.get("ok").is_some()
 }
